@@ -256,6 +256,8 @@ pub enum Kind
 pub enum Hook
 {
     CommandApply{ kind: Kind, target: Name, source: Option<Name>, data: Option<Name> },
+    /// A polled reaction was detected and queued.
+    Scheduled{ kind: Kind, target: Name, source: Name },
     RunnerEnter{ target: Name, counter: u32 },
     RunnerDecision{ target: Name, decision: Decision },
     RunnerBodyDone{ target: Name },
